@@ -98,7 +98,7 @@ def nfds():
     return len(os.listdir('/proc/self/fd'))
 
 
-OPS = ['acq_nb', 'acq_t0', 'acq_ctx', 'with', 'rel', 'rel_force', 'exit_ctx']
+OPS = ['acq_nb', 'acq_t0', 'acq_ctx', 'with', 'rel', 'rel_force', 'exit_ctx', 'exit_exc']
 
 
 def run_sequence(seq, reentrant, faults_plan, tmpdir):
@@ -202,12 +202,21 @@ def run_sequence(seq, reentrant, faults_plan, tmpdir):
                         owner[o], depth[o], holder[0] = pre
                     if not isinstance(res, (TimeoutError, OSError)):
                         problems.append('%s raised %r' % (tag, res))
-            elif op == 'exit_ctx':
+            elif op in ('exit_ctx', 'exit_exc'):
                 st_ = ctxs.get((t, o))
                 if not st_:
                     continue
                 cm = st_.pop()
-                stt, res = workers[t].call(lambda: cm.__exit__(None, None, None))
+                if op == 'exit_ctx':
+                    stt, res = workers[t].call(lambda: cm.__exit__(None, None, None))
+                else:
+                    # the with-block is left by an exception: exactly one level is released all the same
+                    boom = ValueError('raised inside the with-block')
+                    stt, res = workers[t].call(lambda: cm.__exit__(ValueError, boom, None))
+                    if stt == 'ok' and res:
+                        problems.append('%s: __exit__ swallowed the exception of the with-block' % tag)
+                    if stt == 'exc' and res is boom:
+                        stt = 'ok'      # a generator-based manager may re-raise the very exception: same thing
                 if stt != 'ok':
                     problems.append('%s: __exit__ -> %s %r' % (tag, stt, res))
                 model_release(t, o, False)
@@ -260,9 +269,73 @@ def run_sequence(seq, reentrant, faults_plan, tmpdir):
     return problems
 
 
+DIRECTED = [
+    # nested with-blocks / context managers left by an exception, then the state is observed
+    [(0, 0, 'with'), (0, 0, 'with'), (0, 0, 'exit_exc'), (1, 1, 'acq_nb'), (0, 0, 'exit_ctx')],
+    [(0, 0, 'acq_ctx'), (0, 0, 'acq_ctx'), (0, 0, 'exit_exc'), (1, 1, 'acq_nb'), (0, 0, 'exit_exc')],
+    [(0, 0, 'acq_nb'), (0, 0, 'with'), (0, 0, 'exit_exc'), (0, 1, 'acq_nb'), (0, 0, 'rel')],
+    [(0, 0, 'with'), (0, 0, 'acq_ctx'), (0, 0, 'exit_exc'), (0, 0, 'exit_exc'), (1, 1, 'acq_nb')],
+    [(0, 0, 'acq_nb'), (0, 0, 'acq_nb'), (0, 0, 'rel'), (1, 1, 'acq_nb'), (0, 0, 'rel'), (1, 1, 'acq_nb')],
+    [(0, 0, 'acq_nb'), (0, 0, 'acq_nb'), (0, 0, 'rel_force'), (1, 1, 'acq_nb'), (1, 1, 'rel'), (0, 0, 'acq_nb')],
+]
+
+
+def interrupted_wait(tmpdir):
+    """An acquire that is polling for a contended lock is cut short by KeyboardInterrupt (Ctrl-C reaching a
+    blocked main thread): the attempt must keep nothing (C12: failed attempts keep no internal lock)."""
+    problems = []
+    for reentrant in (False, True):
+        path = os.path.join(tmpdir, 'intr%d' % reentrant)
+        a, b = FL.FileLock(path), FL.FileLock(path, reentrant=reentrant)
+        w0, w1 = Worker(), Worker()
+        real_time = FL.time
+
+        class FakeTime:
+            fired = 0
+
+            def __getattr__(s, n):
+                return getattr(real_time, n)
+
+            def sleep(s, d):
+                if not FakeTime.fired:
+                    FakeTime.fired = 1
+                    raise KeyboardInterrupt('injected while polling')
+                return real_time.sleep(d)
+        try:
+            w0.call(lambda: a.acquire())
+            FL.time = FakeTime()
+            st, res = w1.call(lambda: b.acquire(timeout=5))
+            FL.time = real_time
+            if not (st == 'exc' and isinstance(res, KeyboardInterrupt)):
+                problems.append('interrupted acquire(timeout=5) -> %s %r (the interrupt must propagate)' % (st, res))
+            if b.is_locked or b._lock_counter != 0:
+                problems.append('after an interrupted acquire: is_locked=%r counter=%d' % (b.is_locked, b._lock_counter))
+            w0.call(lambda: a.release())
+            st, res = w0.call(lambda: b.acquire(timeout=0.5))     # ANOTHER thread, same object
+            if st != 'ok' or res is not True:
+                problems.append('after an interrupted acquire (reentrant=%r) another thread cannot acquire through '
+                                'the same object: %s %r (the in-process lock was kept)' % (reentrant, st, res))
+            else:
+                w0.call(lambda: b.release())
+        finally:
+            FL.time = real_time
+            for o in (a, b):
+                try:
+                    o.release(force=True)
+                except Exception:
+                    pass
+            w0.stop()
+            w1.stop()
+        if problems:
+            break
+    return problems
+
+
 def gen_sequences(maxlen, rng, budget):
     moves = [(t, o, op) for t in range(2) for o in range(2) for op in OPS]
     seen = 0
+    for seq in DIRECTED:
+        yield list(seq)
     if maxlen <= 3:
         for n in range(1, maxlen + 1):
             for seq in itertools.product(moves, repeat=n):
@@ -293,6 +366,13 @@ def main():
                               tmpdir)
             print('\n'.join(pr) or 'OK')
             return 1 if pr else 0
+        pr = interrupted_wait(tmpdir)
+        runs += 2
+        if pr:
+            print('filelock_ops: interrupted wait')
+            for x in pr:
+                print('PROBLEM:', x)
+            return 1
         budget = 250 if not a.thorough else 4000
         maxlen = 5 if not a.thorough else 7
         limit_s = 40 if not a.thorough else 600
